@@ -39,6 +39,9 @@ var relPaths = []string{
 	"golang.org/x/sys@v0.1.0/unix/syscall.go", "golang.org/x/tools/go/ssa/builder.go", "golang.org/y/z/w.go", "github.com/onlytwo/parts",
 	"gopkg.in/yaml.v2@v2.4.0/decode.go", "example.com/a/vendor/github.com/p/q/r.go", "runtime/proc.go", "net/http/server.go", "",
 	"github.com/<script>/\"y\"@v1'2/z<.go", "github.com/a/b@v1.0.0-1-abc\"/x.go",
+	// versions of every length with a dash at every distance from the end (semver pre-releases)
+	"github.com/x/y@v1.0.0-experimental/z.go", "github.com/x/y@v1.0.0-rc1/z.go", "golang.org/x/sys@v0.1.0-0.20230101-abcdefabcdef/unix/z.go",
+	"github.com/x/y@v1.2.3-alpha.beta.gamma.1/z.go", "github.com/x/y@-/z.go", "github.com/x/y@v0.0.0-2-a/z.go", "github.com/x/y@v1.0.0-abcdefghijkl/z.go", "github.com/x/y@v1-abcdefghijklm/z.go",
 	// module-cache case encoding ("!b" = "B"), including an exclamation mark with nothing after it
 	"github.com/!burnt!sushi/toml@v1.3.2/decode.go", "github.com/acme!/widget@v1.2.3/pkg/w.go", "github.com/acme/widget!@v1.2.3/pkg/w.go", "github.com/!/!@!/!.go",
 	"example.com/mail/user@/handler.go", "example.com/x@", "example.com/@/", "@", "gopkg.in/a@b@c/d.go", "example.com/mod@v2/sub/f.go",
